@@ -173,6 +173,25 @@ def check(facts):
                     msg += "only %s has %s" % (b, [(list(g[-2:]), v, d) for g, v, d in only_b][:3])
                 r.fail(key, msg, facts.loc(fb), {"only_elem": [list(map(str, x)) for x in only_a], "only_pos": [list(map(str, x)) for x in only_b]})
     r.floor("twin_pairs", npairs, 4)
+    # try_move_right / try_move_left: every implementation is the same overflow-safe distance test
+    want = {"try_move_right": {((("right_end(self)-pos < amt", "False"),), "Some(amt+pos)"), ((("right_end(self)-pos < amt", "True"),), "None()")},
+            "try_move_left": {((("-left_end(self)+pos < amt", "False"),), "Some(-amt+pos)"), ((("-left_end(self)+pos < amt", "True"),), "None()")}}
+    for impl in IMPLS:
+        for m, w in want.items():
+            fn = fname(facts, impl, m)
+            if not fn:
+                continue
+            key = "%s %s is the distance test" % (impl, m)
+            try:
+                ps = symex.SymEx(facts.body(fn)).run()
+                got = {(tuple((symex.show(g), str(v)) for g, v in p.guards), symex.show(p.ret)) for p in ps if not p.diverged}
+            except symex.Unsupported as e:
+                got = {("unsupported", str(e))}
+            if got == w:
+                r.ok(key, "None iff distance to the end < amt, else pos moved by amt")
+            else:
+                r.fail(key, "%s::%s is not the overflow-safe distance test its siblings use (%s): an offset beyond the end (or a huge one that "
+                            "wraps the pointer) no longer yields None" % (impl, m, sorted(got)[:2]), facts.loc(fn))
     # Ucs2Input never pairs surrogates
     for n in facts.body_names():
         if n.startswith("<indexing::Ucs2Input<"):
